@@ -477,10 +477,12 @@ impl BackendSession for DbSession<Sqlite> {
             )?;
 
             let mut active = acquire_session(&mut *self).await?;
+            let mut txn = active.as_transaction().await?;
             let removed = sqlx::query_with(query.as_str(), params)
-                .execute(active.connection_mut())
+                .execute(txn.connection_mut())
                 .await?
                 .rows_affected();
+            txn.commit().await?;
             Ok(removed as i64)
         })
     }
@@ -545,7 +547,10 @@ impl BackendSession for DbSession<Sqlite> {
                 })
                 .await?;
                 let mut active = acquire_session(&mut *self).await?;
-                perform_remove(&mut active, kind, &enc_category, &enc_name, false).await
+                let mut txn = active.as_transaction().await?;
+                perform_remove(&mut txn, kind, &enc_category, &enc_name, false).await?;
+                txn.commit().await?;
+                Ok(())
             }),
         }
     }
@@ -696,8 +701,8 @@ async fn perform_insert(
     Ok(())
 }
 
-async fn perform_remove<'q>(
-    active: &mut DbSessionActive<'q, Sqlite>,
+async fn perform_remove(
+    active: &mut DbSessionTxn<'_, Sqlite>,
     kind: EntryKind,
     enc_category: &[u8],
     enc_name: &[u8],
